@@ -28,6 +28,10 @@ where
     /// Create a new PolarizedFractalEfficiency indicator with a chained view, custom moving
     /// average and a window length
     pub fn new(view: V, moving_average: M, window_len: usize) -> Self {
+        assert!(
+            window_len > 2,
+            "window_len must be greater than 2, the path needs at least one segment"
+        );
         Self {
             view,
             moving_average,
